@@ -193,13 +193,47 @@ def hasWireForm (f : Fam) (reach : Bool) (kind seed : Nat) : Bool :=
     ([238, 239, 240, 241, 242, 254, 255, 256, 257, 4094, 4095, 4096].getD (seed % 12) 0) ≤ 4095
   else true
 
-def probe? (w : Bool) : Term → Option Nlri
-  | .list [.atom "panic", d] => (odec? d).map (fun x => .opq .panic x w)
-  | .list [.atom "err", d] => (odec? d).map (fun x => .opq .err x w)
-  | .list [e, d] => do
-      let b ← asBytes? e
-      let x ← odec? d
-      pure (.opq (.ok b) x w)
+/-- STRUCT ::= (vpn (LABEL*) (rd TYPE ADMIN ASSIGNED) xADDR MASK) | (lab (LABEL*) xADDR MASK): the structure of a
+    label-carrying NLRI, read off the Rust value through public fields (never through the encoder) -/
+def struct? : Term → Option NStruct
+  | .list [.atom "vpn", .list ls, .list [.atom "rd", t, a, n], addr, m] => do
+      let ls ← ls.mapM (fun x => natLe? x 1048575)
+      let t ← natLe? t 2
+      let a ← natLe? a U32
+      let n ← natLe? n U32
+      let addr ← asBytes? addr
+      let m ← natLe? m 128
+      if addr.length = 4 ∨ addr.length = 16 then some (.vpn ls ⟨t, a, n⟩ addr m) else none
+  | .list [.atom "lab", .list ls, addr, m] => do
+      let ls ← ls.mapM (fun x => natLe? x 1048575)
+      let addr ← asBytes? addr
+      let m ← natLe? m 128
+      if addr.length = 4 ∨ addr.length = 16 then some (.lab ls addr m) else none
+  | _ => none
+
+/-- wire form of a structured NLRI: the bit count must fit the length octet (a labeled withdrawal carries one
+    compatibility field instead of its stack) -/
+def structWire (reach : Bool) : NStruct → Bool
+  | .vpn ls _ _ m => 24 * ls.length + 64 + m ≤ 255
+  | .lab ls _ m => if reach then 24 * ls.length + m ≤ 255 else true
+
+/-- PROBE ::= (ENC DEC) | (ENC DEC STRUCT) -/
+def probe? (w reach : Bool) (t : Term) : Option Nlri :=
+  let mk (enc : Out Bytes) (d : Term) (st : Option Term) : Option Nlri := do
+    let x ← odec? d
+    match st with
+    | none => pure (.opq enc x ⟨w, !reach, none⟩)
+    | some stt => do
+        let s ← struct? stt
+        pure (.opq enc x ⟨structWire reach s, !reach, some s⟩)
+  let encOf (e : Term) : Option (Out Bytes) :=
+    match e with
+    | .atom "panic" => some .panic
+    | .atom "err" => some .err
+    | e => (asBytes? e).map .ok
+  match t with
+  | .list [e, d] => (encOf e).bind (fun enc => mk enc d none)
+  | .list [e, d, st] => (encOf e).bind (fun enc => mk enc d (some st))
   | _ => none
 
 def entry? (p : Profile) (f : Fam) (reach : Bool) : Term → Option (List Entry)
@@ -235,16 +269,16 @@ def entry? (p : Profile) (f : Fam) (reach : Bool) : Term → Option (List Entry)
       let k ← natLe? k 255
       let s ← natLe? s 18446744073709551615
       let pid ← natLe? pid U32
-      let n ← probe? (hasWireForm f reach k s) pr
+      let n ← probe? (hasWireForm f reach k s) reach pr
       pure [⟨n, pid⟩]
   | .list [.atom "o", k, s, pid, pd, pr] => do
       let k ← natLe? k 255
       let s ← natLe? s 18446744073709551615
       let pid ← natLe? pid U32
-      let n ← probe? (hasWireForm f reach k s) (match p with | .debug => pd | .release => pr)
+      let n ← probe? (hasWireForm f reach k s) reach (match p with | .debug => pd | .release => pr)
       -- both probes must be well-formed
-      let _ ← probe? true pd
-      let _ ← probe? true pr
+      let _ ← probe? true reach pd
+      let _ ← probe? true reach pr
       pure [⟨n, pid⟩]
   | _ => none
 
